@@ -112,27 +112,23 @@ func (d *engDriver) ReceiveProbe(timeout time.Duration) (*common.ProbeResponse, 
 			}
 			return &common.ProbeResponse{TTL: uint8(r.TTL), IP: netip.AddrFrom4([4]byte{10, 0, byte(r.IP >> 8), byte(r.IP)}), RTT: rtt, IsDest: r.Dest}, nil
 		}
-		d.mu.Unlock()
+		// the "no packet" verdict and its log line are taken under the same lock as the queue check (and as the Due lines):
+		// the log order is then the order in which the driver state changed
 		rem := time.Until(deadline)
 		if rem <= 0 {
 			d.w.LogEvent("Deadline")
+			d.mu.Unlock()
 			return nil, &common.ReceiveProbeNoPktError{Err: os.ErrDeadlineExceeded}
 		}
+		d.mu.Unlock()
 		tm := time.NewTimer(rem)
 		select {
 		case <-d.notify:
 			tm.Stop()
 		case <-tm.C:
 			// a reply that became readable at the very instant of the deadline is read (the log order is then
-			// Due, Got, which is the order the spec's RDeadline/Arrive tie allows without an extra Deadline line)
-			d.mu.Lock()
-			n := len(d.queue)
-			d.mu.Unlock()
-			if n > 0 {
-				continue
-			}
-			d.w.LogEvent("Deadline")
-			return nil, &common.ReceiveProbeNoPktError{Err: os.ErrDeadlineExceeded}
+			// Due, Got, which is the order the spec's RDeadline/Arrive tie allows without an extra Deadline line):
+			// loop once more, the deadline has passed and the queue is looked at under the lock
 		}
 	}
 }
